@@ -678,7 +678,7 @@ func ruleReadIsParse(c *Ctx) {
 	pos := c.P.Pos(fn.Pos())
 	n, bad := 0, ""
 	for _, p := range paths {
-		if p.End != "return" || len(p.Ret) != 2 || !p.Ret[1].IsNil() {
+		if p.End != "return" || len(p.Ret) != 2 || !knownNilOnPath(p, p.Ret[1]) {
 			continue
 		}
 		n++
@@ -751,3 +751,21 @@ func ruleReadIsParse(c *Ctx) {
 
 // readIsParseRules: R12.6 alone, for import by C10 (what the file states is what is parsed: the whole file).
 func readIsParseRules(c *Ctx) { ruleReadIsParse(c) }
+
+// knownNilOnPath: t is the nil constant, or the path has found t equal to nil (`return cfg, err` behind `if err == nil`).
+func knownNilOnPath(p *Path, t *Term) bool {
+	if t.IsNil() {
+		return true
+	}
+	key := t.String()
+	for _, a := range p.Atoms {
+		op, l, r, ok := normAtom(a)
+		if !ok || op != "==" {
+			continue
+		}
+		if r.IsNil() && l.String() == key || l.IsNil() && r.String() == key {
+			return true
+		}
+	}
+	return false
+}
